@@ -110,10 +110,13 @@ CLAIMS['C10'] = {
             '_compute_theta in this order; that check_marginal refuses exactly min<0 or max>1; that theta is validated after '
             'assignment and check_theta refuses values outside the closed interval or in invalid_thetas; that the admissible sets '
             'equal the families\' mathematical domains; who may write theta/tau; and the rank-0 contract of the Frank '
-            'calibration (the rule that exposed the fixed defect F17). Correctness of the tau->theta inversions is numeric and '
-            'not decided.',
+            'calibration (the rule that exposed the fixed defect F17). D7: the closed-form calibrations of Clayton and Gumbel are '
+            'evaluated on a partition of tau in (0.001, 0.999) in the interval domain: the family\'s Kendall tau of the returned theta '
+            '(theta/(theta+2), 1-1/theta, from the property text) must meet the tau cell (refutation only) and theta is proved '
+            'admissible. The Frank calibration (Debye function, numeric solver) is not decided.',
     'note': NOTE,
-    'technique': 'CFG dominance/post-dominance, guard normal forms, who-may-write, rank-kind abstract interpretation',
+    'technique': 'CFG dominance/post-dominance, guard normal forms, who-may-write, rank-kind abstract interpretation, '
+                 'interval abstract interpretation',
 }
 CLAIMS['C11'] = {
     'text': 'PARTIAL: decides the typestate of every candidate (fitted Frank; fresh Clayton and Gumbel with tau := frank.tau then '
@@ -154,8 +157,8 @@ CLAIMS['C08'] = {
             'the root function is partial_derivative_scalar(u, v_i) - y_i (argument binding checked), returns rank 0 (the rule that '
             'exposed fixed defect F16) and is bracketed inside [0,1]; Frank/Gumbel/Independence dispatch correctly; D4: at the '
             'independence parameter percent_point returns its probability argument unchanged, Clayton\'s closed form is evaluated '
-            'on intervals for its range (refutation only where intervals are wide). That Clayton\'s closed form inverts its '
-            'h-function and monotonicity in y are not decided.',
+            'on intervals for its range and composed with its partial_derivative on 600 narrow boxes (h(ppf(y,v),v) must meet y: '
+            'refutation only). Monotonicity in y and the root-finder tolerance are not decided.',
     'note': NOTE,
     'technique': 'loop idioms (element-wise, loop-carried state), closure binding, rank-kind abstract interpretation, '
                  'interval abstract interpretation',
